@@ -17,7 +17,7 @@ from typing import (
 )
 
 from pdfminer import settings
-from pdfminer.casting import safe_float, safe_rect_list
+from pdfminer.casting import safe_float, safe_matrix, safe_rect_list
 from pdfminer.cmapdb import (
     CMap,
     CMapBase,
@@ -1064,9 +1064,18 @@ class PDFType3Font(PDFSimpleFont):
         if "FontDescriptor" in spec:
             descriptor = dict_value(spec["FontDescriptor"])
         else:
-            descriptor = {"Ascent": 0, "Descent": 0, "FontBBox": spec["FontBBox"]}
+            descriptor = {
+                "Ascent": 0,
+                "Descent": 0,
+                "FontBBox": spec.get("FontBBox"),
+            }
         PDFSimpleFont.__init__(self, descriptor, widths, spec)
-        self.matrix = cast(Matrix, tuple(list_value(spec.get("FontMatrix"))))
+        matrix_arg = [resolve1(x) for x in list_value(spec.get("FontMatrix"))]
+        matrix = safe_matrix(*matrix_arg) if len(matrix_arg) == 6 else None
+        if matrix is None:
+            # not six numbers: the usual glyph space of 1/1000 unit
+            matrix = (0.001, 0, 0, 0.001, 0, 0)
+        self.matrix = matrix
         (_, self.descent, _, self.ascent) = self.bbox
         (self.hscale, self.vscale) = apply_matrix_norm(self.matrix, (1, 1))
 
